@@ -340,6 +340,50 @@ def _ledger(run):
               "current format: PowHsmAttestationMessage parsed (exact length)", key=f"{fn.qualname}|current-parse",
               where=fn.loc(), message="on the powHSM-header path the message is not parsed by PowHsmAttestationMessage "
               "before the hash comparison")
+    # ... and the converse for the header test: a signer message is refused for its header only when it has neither the legacy nor the powHSM header
+    from sa.decide import subst as _subst
+    starts = [d.cnode for nm_, ds_ in v.PV.defs(fn, None).items() for d in ds_
+              if d.value is not None and _strip(norm(d.value)).startswith("SIGNER_LEGACY_MESSAGE_HEADER_REGEX.match(") and d.cnode is not None]
+    if starts and hcn is not None:
+        st_ = {"W": None}
+
+        def hres(e):
+            b = st_["W"]._bind or {}
+            for _ in range(6):
+                nm_ = {x.id for x in ast.walk(e) if isinstance(x, ast.Name)}
+                hit = {k: v_ for k, v_ in b.items() if k in nm_}
+                if not hit:
+                    break
+                e = _subst(e, hit)
+            return e
+
+        def hatom(e):
+            cp = cmp_parts(e)
+            if cp is not None:
+                l, op, r = cp
+                if isinstance(r, ast.Constant) and r.value is None and op in ("is", "is not", "==", "!=") \
+                        and _strip(norm(hres(l))).startswith("SIGNER_LEGACY_MESSAGE_HEADER_REGEX.match("):
+                    return ("LEGACY", op in ("is not", "!="))
+            x = hres(e)
+            if isinstance(x, ast.Call) and _strip(norm(x.func)) == "PowHsmAttestationMessage.is_header":
+                return ("POWHSM", True)
+            return None
+        Wh = Walker(A, fn, None, hatom, max_leaves=256, max_steps=40000)
+        st_["W"] = Wh
+        nh = 0
+        for lf in Wh.walk(starts[0], stops={hcn}):
+            keys = list(lf.pc)
+            neither = lf.pc.get("LEGACY") is False and lf.pc.get("POWHSM") is False
+            nh += 1
+            if lf.kind == "raise" and keys and keys[-1] in ("LEGACY", "POWHSM"):
+                run.check("R1", neither, "refused for its header only with neither header", key=f"{fn.qualname}|signer-header|refusal|{sorted(lf.pc.items())}"[:120],
+                          where=fn.loc(lf.node.ast) if lf.node.ast is not None else fn.loc(),
+                          message=f"the signer message is refused on its header test under {[(k, b) for k, b in lf.pc.items() if k in ('LEGACY', 'POWHSM')]}: a genuine legacy "
+                                  "or powHSM signer attestation cannot be verified")
+            elif lf.kind == "stop":
+                run.check("R1", not neither, "a message with neither header does not get to the hash comparison", key=f"{fn.qualname}|signer-header|accept", where=fn.loc(),
+                          message="a signer message with neither header reaches the public-keys hash comparison")
+        run.floor("R1", "paths through the signer header tests", nh, 3)
     n = _admin_error_only(run, v, "R1")
     run.floor("R1", "dominating checks of the Ledger verify exit", n, 9)
     # printed values
